@@ -287,6 +287,13 @@ template <class T> static void buffer_cmp_forms(Groups &g, const char *tn, const
     }
 }
 
+template <class T> static void same_storage_forms(Groups &g, const char *tn, const Bytes &a, size_t nb) {
+    auto wa = widen<T>(a); Exact<T> ea(wa.data(), wa.size());
+    std::string t = tn;
+    g.run("sign", (t + "::compare(p,na,p,nb) same address").c_str(), [&] { return jsign(ST::buffer<T>::compare(ea.p, ea.n, ea.p, nb)); });
+    g.run("sign", (t + "::compare(p,na,p,nb,max) same address").c_str(), [&] { return jsign(ST::buffer<T>::compare(ea.p, ea.n, ea.p, nb, ~(size_t)0)); });
+}
+
 // comparison of wide buffers on units that are not bytes (C06): unit order, not byte order
 template <class T> static void op_cmpw(int bits, const std::vector<long long> &a, const std::vector<long long> &b) {
     if (!SH.take()) return;
@@ -348,6 +355,22 @@ static void op_cmp(const Bytes &a, const Bytes &b) {
     buffer_cmp_forms<wchar_t>(g, "wchar_buffer", a, b);
     buffer_cmp_forms<char16_t>(g, "utf16_buffer", a, b);
     buffer_cmp_forms<char32_t>(g, "utf32_buffer", a, b);
+    // operands that START AT THE SAME ADDRESS (b is a prefix of a): a length difference alone must decide
+    if (b.size() <= a.size() && a.compare(0, b.size(), b) == 0) {
+        same_storage_forms<char>(g, "char_buffer", a, b.size());
+        same_storage_forms<wchar_t>(g, "wchar_buffer", a, b.size());
+        same_storage_forms<char16_t>(g, "utf16_buffer", a, b.size());
+        same_storage_forms<char32_t>(g, "utf32_buffer", a, b.size());
+        // an object against its own C string (b = a up to its first NUL)
+        if (nulfree(b) && (a.size() == b.size() || a[b.size()] == 0)) {
+            g.run("sign", "compare(own c_str())", [&] { return jsign(sa.compare(sa.c_str())); });
+            g.run("eq", "== own c_str()", [&] { return jint(sa == sa.c_str()); });
+            g.run("ne", "!= own c_str()", [&] { return jint(sa != sa.c_str()); });
+            g.run("isign", "compare_i(own c_str())", [&] { return jsign(sa.compare_i(sa.c_str())); });
+            ST::char_buffer ba(a.data(), a.size());
+            g.run("sign", "char_buffer.compare(own data())", [&] { return jsign(ba.compare(ba.data())); });
+        }
+    }
     // hashes (only equality between them is meaningful): pair [hash(a), hash(b)]
     auto hp = [&](size_t x, size_t y) { Out o; o.c('['); put_limbs(o, x); o.c(','); put_limbs(o, y); o.c(']'); return o.b; };
     g.run("hash", "ST::hash", [&] { return hp(ST::hash()(sa), ST::hash()(sb)); });
@@ -675,6 +698,20 @@ static Bytes planted(Rng &rng, const std::vector<long long> &alpha, const Bytes 
 }
 static Bytes size_class(size_t n, unsigned seed) { Bytes b; for (size_t i = 0; i < n; ++i) b.push_back((char)("abc de\0fg"[(i * 7 + seed) % 9])); return b; }
 
+// needles longer than any scratch buffer a search could use (63..200 bytes, not periodic), planted twice in the
+// haystack: once with the case of every letter flipped (a match only in case-insensitive mode), once exactly
+static std::vector<std::pair<Bytes, Bytes>> long_needles() {
+    std::vector<std::pair<Bytes, Bytes>> r;
+    for (size_t n : {31u, 32u, 33u, 63u, 64u, 65u, 66u, 100u, 127u, 128u, 129u, 200u}) {
+        Bytes nd; for (size_t i = 0; i < n; ++i) nd += (char)("abcdefghijklmnopqrstuvwxyz0123456789-_"[(i * i + i / 7) % 38]);
+        Bytes fl = nd; for (char &c : fl) if ((c >= 'a' && c <= 'z')) c ^= 0x20;
+        Bytes near = nd; near[n - 1] = '#';            // differs in the last byte only
+        r.push_back({Bytes("..") + near + "|" + fl + "::" + nd + "!", nd});
+        r.push_back({fl.substr(1) + fl, nd});
+    }
+    return r;
+}
+
 int main(int argc, char **argv) {
     install_handlers();
     _ST_PRIVATE::verif_assert_hook() = assert_hook;
@@ -705,6 +742,11 @@ int main(int argc, char **argv) {
         op_matrix(strs.size() > 60 ? std::vector<Bytes>(strs.begin(), strs.begin() + 60) : strs);
         for (auto &a : strs) op_case(a);
         for (int c = 0; c < 256; ++c) { Bytes b(1, (char)c); op_case(b); op_case(Bytes("x") + b + "Y"); }
+        // any byte directly in front of a letter, at every alignment within an 8-byte block, against the other case
+        for (int c : {0x00, 0x40, 0x5A, 0x5B, 0x60, 0x7F, 0x80, 0xBF, 0xC0, 0xDA, 0xDB, 0xE0, 0xFF}) for (char letter : {'Z', 'A', 'm'}) for (int k = 0; k < 8; ++k) {
+            Bytes a = Bytes("abcdefgh").substr(0, k) + (char)c + letter + "ijklmnopqrs"; Bytes b = a; b[k + 1] ^= 0x20;
+            op_cmp(a, b);
+        }
         // huge claimed sizes, nothing beyond min(lsize, rsize) touched
         static const unsigned long long SZ[] = {0, 1, 2, (1ull << 31) - 1, 1ull << 31, (1ull << 32) - 1, 1ull << 32, (1ull << 32) + 1, 1ull << 63, ~0ull};
         for (const char *common : {"", "a", "ab"}) for (const char *ta : {"", "a", "b", "\xFF"}) for (const char *tb : {"", "a", "b", "\x80"})
@@ -736,6 +778,7 @@ int main(int argc, char **argv) {
         std::vector<Bytes> subj = strs;
         for (size_t n : {L - 1, L, L + 1, (size_t)40, (size_t)300}) subj.push_back(size_class(n, 5));
         for (int c = 0; c < 256; ++c) { subj.push_back(Bytes(1, (char)c)); subj.push_back(Bytes("k") + (char)c + "Z"); }
+        for (int c = 0; c < 256; ++c) for (int k : {0, 3, 6, 7}) subj.push_back(Bytes("abcdefgh").substr(0, k) + (char)c + "Zq" + Bytes("ijklmnopq").substr(0, 9 - k));
         for (auto &s : subj) op_hashv(s);
         for (auto &s : subj) {
             if (s.size() > 3 && s.size() < 40 && s.size() != L) continue;
@@ -763,6 +806,9 @@ int main(int argc, char **argv) {
             for (const Bytes &hs : {Bytes(1, (char)(c ^ 0x20)), Bytes{(char)(c ^ 0x20), (char)c}, Bytes{(char)(c ^ 0x80), (char)(c ^ 0x20), 'x', (char)c, (char)(c ^ 0x20)}})
                 for (int ci = 0; ci < 2; ++ci) { op_find(hs, n, 0, ci); op_findlast(hs, n, ~0ull, ci); op_affix(hs, n, ci); }
         }
+        for (auto &ln : long_needles()) for (int ci = 0; ci < 2; ++ci) {
+            op_find(ln.first, ln.second, 0, ci); op_findlast(ln.first, ln.second, ~0ull, ci); op_affix(ln.first, ln.second, ci);
+        }
     } else if (gen == "c07rand") {
         for (long long k = 0; k < count; ++k) {
             Bytes n = rand_bytes(rng, alpha, 4); Bytes hs = planted(rng, alpha, n, 40); bool ci = rng.below(2);
@@ -789,6 +835,8 @@ int main(int argc, char **argv) {
         // two-byte separators whose second byte has a bit-5 / bit-7 twin in the text
         for (int c = 0; c < 256; ++c) { Bytes n2{'x', (char)c}; Bytes hs{'x', (char)(c ^ 0x20), '-', 'X', (char)c, 'x', (char)(c ^ 0x80)};
             for (int ci = 0; ci < 2; ++ci) op_bafl(hs, n2, ci); }
+        for (int c = 0; c < 256; ++c) { Bytes n1(1, (char)c); Bytes hs{'x', (char)(c ^ 0x20), '-', (char)c, 'y', (char)(c ^ 0x80), (char)c, 'z'};
+            for (int ci = 0; ci < 2; ++ci) op_bafl(hs, n1, ci); }
         for (auto &s : subj) if (s.size() > (size_t)maxlen) for (const char *sep : {"c", "c ", " d", "zz", ""}) for (int ci = 0; ci < 2; ++ci) op_bafl(s, sep, ci);
     } else if (gen == "c08rand") {
         std::vector<long long> ws = {32, 9, 10, 13, 97, 98, 0, 255};
@@ -810,6 +858,7 @@ int main(int argc, char **argv) {
         for (auto &s : strs) for (auto &d : needles) if (nulfree(d)) op_tokenize(s, d);
         for (int c = 0; c < 256; ++c) { Bytes n2{'x', (char)c}; Bytes hs{'x', (char)(c ^ 0x20), '-', 'X', (char)c, 'x', (char)(c ^ 0x80)};
             for (int ci = 0; ci < 2; ++ci) { op_split(hs, n2, ~0ull, ci); op_replace(hs, n2, "#", ci); } }
+        for (auto &ln : long_needles()) for (int ci = 0; ci < 2; ++ci) { op_split(ln.first, ln.second, ~0ull, ci); op_replace(ln.first, ln.second, "<>", ci); op_bafl(ln.first, ln.second, ci); }
         // growth and shrinkage across the small-string limit
         size_t L = ST_MAX_SSO_LENGTH;
         for (size_t n = L - 3; n <= L + 3; ++n) for (const char *from : {"a", "ab", "b c"}) for (const char *to : {"", "x", "xy", "xyz", "abab"})
